@@ -266,7 +266,7 @@ def run_entry(case, index, salt):
   ent = case['entries'][index]
   form, want = ent['form'], ent['result']
   with materialised(case, salt) as (gin, config, skip):
-    files = [n + '.gin' for n in form['files']]
+    files = [n + '.gin' for n in form['files']]          # ('nofile.gin' exists nowhere)
     if not files and salt % 2:
       files = None
     b = form['bindings']
